@@ -76,6 +76,14 @@ struct vp_event vp_ev[VP_EV_CAP]; int vp_ev_n;
 void vp_free(void *p);
 void vp_terminate(void);
 void vp_bad_dispatch(void);
+/* std::function as a tagged closure object / std::vector as a fixed-capacity array (units with erase_functions) */
+struct vp_fnobj { int tag; void *obj; };
+#ifndef VP_VEC_CAP
+#define VP_VEC_CAP 4
+#endif
+void vp_bad_function_call(void);
+#define VP_SAFETY(c, text) __CPROVER_assert(c, "[C14] SAFETY: " text)
+#define VP_MODEL_BOUND(c, text) __CPROVER_assert(c, "unwinding assertion (model bound): " text)
 void vp_abort(void);
 struct vp_stdexc *vp_current_stdexc(void);
 #endif
